@@ -1,0 +1,188 @@
+//go:build verif
+
+// Contracts for govc (contract-based deductive verification, see /verif/DESIGN.md).
+// Comment-only file: it adds no code and is compiled only with -tags verif.
+
+package internal_planner
+
+// Slot layout of aggOpStream.values: values[2*b] is the aggregate of range
+// bucket b, values[2*b+1] its sample count / non-empty flag.
+
+//@ spec fn slot(ctx *shared.PlannerContext, ts int64, dur time.Duration) int = (ts - ctx.From.UnixNano()) / dur.Nanoseconds() * 2
+
+// ---------------------------------------------------------------- unwrapped range aggregations
+
+//@ func (*UnwrapAggPlanner).addValue [C09]
+//@   requires l.Duration > 0
+//@   requires entry.TimestampNS >= ctx.From.UnixNano()
+//@   requires slot(ctx, entry.TimestampNS, l.Duration) + 1 < len(stream.values)
+//@   requires slotwf: stream.values[slot(ctx, entry.TimestampNS, l.Duration) + 1] >= 0 &&
+//@              (stream.values[slot(ctx, entry.TimestampNS, l.Duration) + 1] == 0 ==> stream.values[slot(ctx, entry.TimestampNS, l.Duration)] == 0)
+//@   requires flag01: l.Function != "avg_over_time" ==>
+//@              (stream.values[slot(ctx, entry.TimestampNS, l.Duration) + 1] == 0 || stream.values[slot(ctx, entry.TimestampNS, l.Duration) + 1] == 1)
+//@   modifies stream.values[slot(ctx, entry.TimestampNS, l.Duration)], stream.values[slot(ctx, entry.TimestampNS, l.Duration) + 1]
+//@   ensures rate: l.Function == "rate" ==> stream.values[slot(ctx, entry.TimestampNS, l.Duration)] == old(stream.values[slot(ctx, entry.TimestampNS, l.Duration)]) + entry.Value
+//@   ensures sum: l.Function == "sum_over_time" ==> stream.values[slot(ctx, entry.TimestampNS, l.Duration)] == old(stream.values[slot(ctx, entry.TimestampNS, l.Duration)]) + entry.Value
+//@   ensures avg: l.Function == "avg_over_time" ==> stream.values[slot(ctx, entry.TimestampNS, l.Duration)] == old(stream.values[slot(ctx, entry.TimestampNS, l.Duration)]) + entry.Value
+//@              && stream.values[slot(ctx, entry.TimestampNS, l.Duration) + 1] == old(stream.values[slot(ctx, entry.TimestampNS, l.Duration) + 1]) + 1
+//@   ensures max: l.Function == "max_over_time" ==> stream.values[slot(ctx, entry.TimestampNS, l.Duration)] ==
+//@              (old(stream.values[slot(ctx, entry.TimestampNS, l.Duration) + 1]) == 0 ? entry.Value : max(old(stream.values[slot(ctx, entry.TimestampNS, l.Duration)]), entry.Value))
+//@   ensures min: l.Function == "min_over_time" ==> stream.values[slot(ctx, entry.TimestampNS, l.Duration)] ==
+//@              (old(stream.values[slot(ctx, entry.TimestampNS, l.Duration) + 1]) == 0 ? entry.Value : min(old(stream.values[slot(ctx, entry.TimestampNS, l.Duration)]), entry.Value))
+//@   ensures first: l.Function == "first_over_time" ==> stream.values[slot(ctx, entry.TimestampNS, l.Duration)] ==
+//@              (old(stream.values[slot(ctx, entry.TimestampNS, l.Duration) + 1]) == 0 ? entry.Value : old(stream.values[slot(ctx, entry.TimestampNS, l.Duration)]))
+//@   ensures last: l.Function == "last_over_time" ==> stream.values[slot(ctx, entry.TimestampNS, l.Duration)] == entry.Value
+//@   ensures nonempty: (l.Function == "rate" || l.Function == "sum_over_time" || l.Function == "max_over_time" || l.Function == "min_over_time" || l.Function == "first_over_time" || l.Function == "last_over_time")
+//@              ==> stream.values[slot(ctx, entry.TimestampNS, l.Duration) + 1] == 1
+//@   replay:
+//@     let fn = l.Function == "min_over_time" ? 1 : (l.Function == "first_over_time" ? 2 : (l.Function == "max_over_time" ? 3 : 0))
+//@     let oldv = stream.values[slot(ctx, entry.TimestampNS, l.Duration)]
+//@     let oldc = stream.values[slot(ctx, entry.TimestampNS, l.Duration) + 1]
+//@     let v = entry.Value
+//@     import "time"
+//@     import "github.com/metrico/qryn/reader/logql/logql_transpiler_v2/shared"
+//@     go: name := map[int]string{1: "min_over_time", 2: "first_over_time", 3: "max_over_time", 0: "sum_over_time"}[$fn]
+//@     go: p := &UnwrapAggPlanner{Function: name}
+//@     go: p.Duration = time.Second
+//@     go: ctx := &shared.PlannerContext{From: time.Unix(100, 0), To: time.Unix(110, 0)}
+//@     go: st := &aggOpStream{values: make([]float64, 20)}
+//@     go: oldv, oldc, v := float64($oldv), float64($oldc), float64($v)
+//@     go: st.values[4], st.values[5] = oldv, oldc
+//@     go: p.addValue(ctx, &shared.LogEntry{TimestampNS: time.Unix(102, 5).UnixNano(), Value: v}, st)
+//@     go: want := st.values[4]
+//@     go: switch name {
+//@     go: case "min_over_time": want = v; if oldc != 0 && oldv < v { want = oldv }
+//@     go: case "max_over_time": want = v; if oldc != 0 && oldv > v { want = oldv }
+//@     go: case "first_over_time": want = oldv; if oldc == 0 { want = v }
+//@     go: }
+//@     go: if st.values[4] != want { confirm(fmt.Sprintf("%s: bucket held (%v, count %v), entry %v: got %v, LogQL definition gives %v", name, oldv, oldc, v, st.values[4], want)) }
+//@   end
+
+//@ func (*UnwrapAggPlanner).finalize [C09]
+//@   requires l.Duration >= 1000000
+//@   requires len(stream.values) % 2 == 0
+//@   modifies elems(stream.values)
+//@   ensures rate: l.Function == "rate" ==> (forall k int :: 0 <= k && 2*k < len(stream.values) ==>
+//@              stream.values[2*k] == old(stream.values[2*k]) / (real(l.Duration.Milliseconds()) / 1000.0))
+//@   ensures avg: l.Function == "avg_over_time" ==> (forall k int :: 0 <= k && 2*k < len(stream.values) ==>
+//@              stream.values[2*k] == (old(stream.values[2*k+1]) != 0 ? old(stream.values[2*k]) / old(stream.values[2*k+1]) : old(stream.values[2*k])))
+//@   ensures counts: forall k int :: 0 <= k && 2*k + 1 < len(stream.values) ==> stream.values[2*k+1] == old(stream.values[2*k+1])
+//@   ensures others: l.Function != "rate" && l.Function != "avg_over_time" ==> (forall j int :: 0 <= j && j < len(stream.values) ==> stream.values[j] == old(stream.values[j]))
+//@   loop 1:
+//@     invariant 0 <= i && i % 2 == 0 && i <= len(stream.values)
+//@     invariant forall k int :: 0 <= k && 2*k < i ==> stream.values[2*k] == old(stream.values[2*k]) / (real(l.Duration.Milliseconds()) / 1000.0)
+//@     invariant forall j int :: i <= j && j < len(stream.values) ==> stream.values[j] == old(stream.values[j])
+//@     invariant forall k int :: 0 <= k && 2*k + 1 < len(stream.values) ==> stream.values[2*k+1] == old(stream.values[2*k+1])
+//@     modifies elems(stream.values)
+//@     decreases len(stream.values) - i
+//@   loop 2:
+//@     invariant 0 <= i && i % 2 == 0 && i <= len(stream.values)
+//@     invariant forall k int :: 0 <= k && 2*k < i ==>
+//@              stream.values[2*k] == (old(stream.values[2*k+1]) != 0 ? old(stream.values[2*k]) / old(stream.values[2*k+1]) : old(stream.values[2*k]))
+//@     invariant forall j int :: i <= j && j < len(stream.values) ==> stream.values[j] == old(stream.values[j])
+//@     invariant forall k int :: 0 <= k && 2*k + 1 < len(stream.values) ==> stream.values[2*k+1] == old(stream.values[2*k+1])
+//@     modifies elems(stream.values)
+//@     decreases len(stream.values) - i
+
+// ---------------------------------------------------------------- log range aggregations
+
+//@ func (*LRAPlanner).addValue [C09]
+//@   requires l.Duration > 0
+//@   requires entry.TimestampNS >= ctx.From.UnixNano()
+//@   requires slot(ctx, entry.TimestampNS, l.Duration) + 1 < len(stream.values)
+//@   modifies stream.values[slot(ctx, entry.TimestampNS, l.Duration)], stream.values[slot(ctx, entry.TimestampNS, l.Duration) + 1]
+//@   ensures count: (l.Func == "rate" || l.Func == "count_over_time") ==>
+//@              stream.values[slot(ctx, entry.TimestampNS, l.Duration)] == old(stream.values[slot(ctx, entry.TimestampNS, l.Duration)]) + 1
+//@   ensures bytes: (l.Func == "bytes_rate" || l.Func == "bytes_over_time") ==>
+//@              stream.values[slot(ctx, entry.TimestampNS, l.Duration)] == old(stream.values[slot(ctx, entry.TimestampNS, l.Duration)]) + real(len(entry.Message))
+//@   ensures nonempty: (l.Func == "rate" || l.Func == "count_over_time" || l.Func == "bytes_rate" || l.Func == "bytes_over_time") ==>
+//@              stream.values[slot(ctx, entry.TimestampNS, l.Duration) + 1] == 1
+
+//@ func (*LRAPlanner).finalize [C09]
+//@   requires l.Duration >= 1000000
+//@   requires len(stream.values) % 2 == 0
+//@   modifies elems(stream.values)
+//@   ensures rate: (l.Func == "rate" || l.Func == "bytes_rate") ==> (forall k int :: 0 <= k && 2*k < len(stream.values) ==>
+//@              stream.values[2*k] == old(stream.values[2*k]) / (real(l.Duration.Milliseconds()) / 1000.0))
+//@   ensures others: l.Func != "rate" && l.Func != "bytes_rate" ==> (forall j int :: 0 <= j && j < len(stream.values) ==> stream.values[j] == old(stream.values[j]))
+//@   loop 1:
+//@     invariant 0 <= i && i % 2 == 0 && i <= len(stream.values)
+//@     invariant forall k int :: 0 <= k && 2*k < i ==> stream.values[2*k] == old(stream.values[2*k]) / (real(l.Duration.Milliseconds()) / 1000.0)
+//@     invariant forall j int :: i <= j && j < len(stream.values) ==> stream.values[j] == old(stream.values[j])
+//@     invariant forall k int :: 0 <= k && 2*k + 1 < len(stream.values) ==> stream.values[2*k+1] == old(stream.values[2*k+1])
+//@     modifies elems(stream.values)
+//@     decreases len(stream.values) - i
+//@   loop 2:
+//@     invariant 0 <= i && i % 2 == 0 && i <= len(stream.values)
+//@     invariant forall k int :: 0 <= k && 2*k < i ==> stream.values[2*k] == old(stream.values[2*k]) / (real(l.Duration.Milliseconds()) / 1000.0)
+//@     invariant forall j int :: i <= j && j < len(stream.values) ==> stream.values[j] == old(stream.values[j])
+//@     invariant forall k int :: 0 <= k && 2*k + 1 < len(stream.values) ==> stream.values[2*k+1] == old(stream.values[2*k+1])
+//@     modifies elems(stream.values)
+//@     decreases len(stream.values) - i
+
+// ---------------------------------------------------------------- vector aggregations
+
+//@ spec fn bucket(ctx *shared.PlannerContext, ts int64, dur time.Duration) int = (ts - ctx.From.UnixNano()) / dur.Nanoseconds()
+//@ spec fn inWindow(ctx *shared.PlannerContext, ts int64, dur time.Duration, n int) bool = ts >= ctx.From.UnixNano() && 2 * bucket(ctx, ts, dur) + 1 < n
+
+// No precondition on the timestamp: the guard in the code must make every index safe.
+//@ func (*AggOpPlanner).addValue [C09,C12]
+//@   requires a.Duration > 0 && len(stream.values) % 2 == 0
+//@   requires slotwf: inWindow(ctx, entry.TimestampNS, a.Duration, len(stream.values)) ==>
+//@              stream.values[2 * bucket(ctx, entry.TimestampNS, a.Duration) + 1] >= 0
+//@   modifies elems(stream.values)
+//@   ensures sum: a.Func == "sum" && inWindow(ctx, entry.TimestampNS, a.Duration, len(stream.values)) ==>
+//@              stream.values[2 * bucket(ctx, entry.TimestampNS, a.Duration)] == old(stream.values[2 * bucket(ctx, entry.TimestampNS, a.Duration)]) + entry.Value
+//@   ensures count: a.Func == "count" && inWindow(ctx, entry.TimestampNS, a.Duration, len(stream.values)) ==>
+//@              stream.values[2 * bucket(ctx, entry.TimestampNS, a.Duration)] == old(stream.values[2 * bucket(ctx, entry.TimestampNS, a.Duration)]) + 1
+//@   ensures avg: a.Func == "avg" && inWindow(ctx, entry.TimestampNS, a.Duration, len(stream.values)) ==>
+//@              stream.values[2 * bucket(ctx, entry.TimestampNS, a.Duration)] == old(stream.values[2 * bucket(ctx, entry.TimestampNS, a.Duration)]) + entry.Value &&
+//@              stream.values[2 * bucket(ctx, entry.TimestampNS, a.Duration) + 1] == old(stream.values[2 * bucket(ctx, entry.TimestampNS, a.Duration) + 1]) + 1
+//@   ensures min: a.Func == "min" && inWindow(ctx, entry.TimestampNS, a.Duration, len(stream.values)) ==>
+//@              stream.values[2 * bucket(ctx, entry.TimestampNS, a.Duration)] ==
+//@              (old(stream.values[2 * bucket(ctx, entry.TimestampNS, a.Duration) + 1]) == 0 ? entry.Value : min(old(stream.values[2 * bucket(ctx, entry.TimestampNS, a.Duration)]), entry.Value))
+//@   ensures max: a.Func == "max" && inWindow(ctx, entry.TimestampNS, a.Duration, len(stream.values)) ==>
+//@              stream.values[2 * bucket(ctx, entry.TimestampNS, a.Duration)] ==
+//@              (old(stream.values[2 * bucket(ctx, entry.TimestampNS, a.Duration) + 1]) == 0 ? entry.Value : max(old(stream.values[2 * bucket(ctx, entry.TimestampNS, a.Duration)]), entry.Value))
+//@   ensures others: forall j int :: 0 <= j && j < len(stream.values) && j != 2 * bucket(ctx, entry.TimestampNS, a.Duration) && j != 2 * bucket(ctx, entry.TimestampNS, a.Duration) + 1 ==>
+//@              stream.values[j] == old(stream.values[j])
+//@   replay:
+//@     let n = len(stream.values)
+//@     let ts = entry.TimestampNS
+//@     let from = ctx.From.UnixNano()
+//@     let dur = a.Duration
+//@     import "time"
+//@     import "github.com/metrico/qryn/reader/logql/logql_transpiler_v2/shared"
+//@     go: p := &AggOpPlanner{Func: "sum"}
+//@     go: p.Duration = time.Duration($dur)
+//@     go: ctx := &shared.PlannerContext{From: time.Unix(0, $from)}
+//@     go: st := &aggOpStream{values: make([]float64, $n)}
+//@     go: p.addValue(ctx, &shared.LogEntry{TimestampNS: $ts, Value: 1}, st)
+//@   end
+
+//@ func (*AggOpPlanner).finalize [C09]
+//@   requires len(stream.values) % 2 == 0
+//@   modifies elems(stream.values)
+//@   ensures avg: a.Func == "avg" ==> (forall k int :: 0 <= k && 2*k < len(stream.values) ==>
+//@              stream.values[2*k] == (old(stream.values[2*k+1]) > 0 ? old(stream.values[2*k]) / old(stream.values[2*k+1]) : old(stream.values[2*k])))
+//@   ensures others: a.Func != "avg" ==> (forall j int :: 0 <= j && j < len(stream.values) ==> stream.values[j] == old(stream.values[j]))
+//@   loop 1:
+//@     invariant 0 <= i && i % 2 == 0 && i <= len(stream.values)
+//@     invariant forall k int :: 0 <= k && 2*k < i ==>
+//@              stream.values[2*k] == (old(stream.values[2*k+1]) > 0 ? old(stream.values[2*k]) / old(stream.values[2*k+1]) : old(stream.values[2*k]))
+//@     invariant forall j int :: i <= j && j < len(stream.values) ==> stream.values[j] == old(stream.values[j])
+//@     invariant forall k int :: 0 <= k && 2*k + 1 < len(stream.values) ==> stream.values[2*k+1] == old(stream.values[2*k+1])
+//@     modifies elems(stream.values)
+//@     decreases len(stream.values) - i
+
+// ---------------------------------------------------------------- comparison
+
+//@ func (*ComparisonPlanner).compare [C09]
+//@   modifies nothing
+//@   ensures gt: a.Op == ">" ==> (result <==> e.Value > a.Val)
+//@   ensures ge: a.Op == ">=" ==> (result <==> e.Value >= a.Val)
+//@   ensures lt: a.Op == "<" ==> (result <==> e.Value < a.Val)
+//@   ensures le: a.Op == "<=" ==> (result <==> e.Value <= a.Val)
+//@   ensures eq: a.Op == "==" ==> (result <==> e.Value == a.Val)
+//@   ensures ne: a.Op == "!=" ==> (result <==> e.Value != a.Val)
+//@   ensures unknown: a.Op != ">" && a.Op != ">=" && a.Op != "<" && a.Op != "<=" && a.Op != "==" && a.Op != "!=" ==> !result
